@@ -401,9 +401,22 @@ def d6_encoder(ctx):
                detail='no super().default fallback')
     wj = ctx.repo.func('utils.write_jsonfile')
     dumps = [n for n in own_nodes(wj.node) if isinstance(n, ast.Call) and dotted(n.func) == 'json.dumps']
-    ok = bool(dumps) and all(norm(get_arg(d, None, 'cls') or ast.Constant(None)) == 'cls' for d in dumps)
-    dflt = any(isinstance(n, ast.If) and norm(n.test) == 'cls is None' and any(
-        isinstance(s, ast.Assign) and norm(s.value) == 'DDJSONEncoder' for s in n.body) for n in own_nodes(wj.node))
+    def _encoder_arg_ok(d):
+        a = get_arg(d, None, 'cls')
+        if not isinstance(a, ast.Name):
+            return False, None
+        if a.id == 'cls':
+            return True, 'cls'
+        # a local copy of the parameter (`enc = cls; if enc is None: enc = DDJSONEncoder`)
+        vals = [norm(v) for v, st in defs_of(wj.node, a.id)]
+        return ('cls' in vals and all(v in ('cls', 'DDJSONEncoder', 'utils.DDJSONEncoder') for v in vals)), a.id
+    res = [_encoder_arg_ok(d) for d in dumps]
+    ok = bool(dumps) and all(r[0] for r in res)
+    names_ = {r[1] for r in res if r[1]}
+    dflt = any(isinstance(n, ast.If) and norm(n.test) in {f'{x} is None' for x in names_ | {'cls'}} and any(
+        isinstance(s, ast.Assign) and norm(s.value) == 'DDJSONEncoder' for s in n.body) for n in own_nodes(wj.node)) or \
+        any(isinstance(n, ast.IfExp) and norm(n.test) in ('cls is None', 'cls is not None') and
+            'DDJSONEncoder' in (norm(n.body), norm(n.orelse)) for n in own_nodes(wj.node))
     ctx.decide(ok and dflt, 'R-FLOW', 'D6', wj, dumps[0] if dumps else None, 'encoder-used',
                'write_jsonfile serialises with DDJSONEncoder by default', detail='encoder is not passed to json.dumps')
     # no stricter gate elsewhere: every other serialisation of user data either uses the writer's encoder or can only
